@@ -19,6 +19,7 @@ structure Presented where
   scopes : List String := []
   audience : List String := []
   storageVeto : Bool := false          -- the storage policy refuses this exchange
+  actPolicy : String := "flat"         -- which of the storage's policies for the `act` member is in force (`actValue`)
   deriving Repr, Inhabited
 
 structure Issued where
@@ -36,7 +37,12 @@ structure Issued where
   -- what the issued token ITSELF carries when it is self-contained (a JWT access token, an ID token): its `sub` and `act.sub` claims
   selfContained : Bool := false
   tokenSubject : String := ""
-  tokenActor : String := ""
+  tokenActor : String := ""            -- (rounds 3-4: `act.sub` alone; kept for the record, the clause now judges the whole member)
+  -- the WHOLE `act` member of a self-contained token, nested members and all, as canonical JSON (keys sorted, no blanks; "" = absent)
+  tokenAct : String := ""
+  -- journal of the exchange storage: its claims hook was asked for THIS request, and the `act` value it answered (same rendering)
+  policyActAnswered : Bool := false
+  policyAct : String := ""
   deriving Repr, Inhabited
 
 def supported : List String :=
@@ -59,6 +65,23 @@ def expectedActor (p : Presented) : String :=
   if p.actorGiven then p.actorSubject
   else if p.scopes.any (fun s => Go.hasPrefix s "custom_scope:impersonate:") then p.subjectSubject
   else ""
+
+/-- a JSON string (the identities of this stream need no escaping: letters, digits, `:`, `-`) -/
+def jstr (s : String) : String := "\"" ++ s ++ "\""
+
+/-- THE STORAGE POLICY'S DECISION about the `act` member (the policy table of the reference storage, harness/cmd/vharness/c15store.go
+    `c15PolicyAct`), as canonical JSON: for the party `who` that is to be named (`expectedActor`; "" = nobody), the original subject
+    `subj` and the presenting client -
+    `flat` `{sub: who}` · `chain` a nested delegation chain `{sub: who, act: {sub: gw, act: {sub: prior:subj}}}` ·
+    `pairwise` a renamed actor `{sub: pw:client:who}` · `extra` further members next to `sub` · `none` no `act` member at all -/
+def actValue (mode who subj client : String) : String :=
+  if who == "" then "" else
+  match mode with
+  | "none" => ""
+  | "chain" => "{\"act\":{\"act\":{\"sub\":" ++ jstr ("prior:" ++ subj) ++ "},\"sub\":\"gw\"},\"sub\":" ++ jstr who ++ "}"
+  | "pairwise" => "{\"sub\":" ++ jstr ("pw:" ++ client ++ ":" ++ who) ++ "}"
+  | "extra" => "{\"amr\":[\"mfa\"],\"client_id\":" ++ jstr client ++ ",\"sub\":" ++ jstr who ++ "}"
+  | _ => "{\"sub\":" ++ jstr who ++ "}"
 
 def judge (cfg : C05.Cfg) (now : Int) (cred : C04.Presented) (p : Presented) (obs : Option Issued) : Option String :=
   match obs with
@@ -94,7 +117,10 @@ def judge (cfg : C05.Cfg) (now : Int) (cred : C04.Presented) (p : Presented) (ob
       else if o.subject != expectedSubject p then some "tokens:subject"
       -- a self-contained token carries the subject and the ACTOR the storage policy decided
       else if o.selfContained && o.tokenSubject != expectedSubject p then some "tokens:subject-claim"
-      else if o.selfContained && o.tokenActor != expectedActor p then some "tokens:actor"
+      -- ... the WHOLE `act` member the policy decides for the party resolved for the actor role (policy table), and it is the value the
+      -- storage's claims hook answered for this very request (journal): not flattened, not renamed back, not invented, not dropped
+      else if o.selfContained && o.tokenAct != actValue p.actPolicy (expectedActor p) p.subjectSubject cl.id then some "tokens:actor"
+      else if o.selfContained && o.policyActAnswered && o.tokenAct != o.policyAct then some "tokens:actor-is-not-the-policy's-answer"
       else if o.scopes != p.scopes.filter (· != "address") then some "tokens:scopes"
       else if p.requestedType != "" && o.issuedTokenType != p.requestedType then some "issued-type-differs-from-requested"
       -- the identities are the ones resolved FOR THAT ROLE, and they are what the storage policy was asked about
